@@ -247,6 +247,16 @@ type BlockSite struct {
 	Forever bool       // loop without condition
 }
 
+// FnPlace records one walk of a function node (literal or helper declaration): the
+// context in which its body runs.
+type FnPlace struct {
+	Ctx     *Ctx
+	Slot    int
+	Inlined bool      // called from another function of the same context (BasePos is the call position)
+	BasePos token.Pos // valid when Inlined
+	InLoop  bool
+}
+
 // Store is an assignment of a subscription value into a variable, element or field.
 type Store struct {
 	Rec
@@ -320,7 +330,9 @@ func (m *Model) walkSC(sc *SC) {
 	if sc.Ctx0 != nil {
 		root.vars[sc.Ctx0] = &AV{Kind: AVCtx0}
 	}
+	sc.FnPlaces = map[ast.Node][]FnPlace{}
 	sc.Body = w.newCtx(KBody, nil, -1, sc.Lit, sc.Lit.Pos(), false, nil)
+	sc.FnPlaces[sc.Lit] = []FnPlace{{Ctx: sc.Body, Slot: -1}}
 	w.walked[sc.Lit] = true
 	fr := frame{env: root, ctx: sc.Body, slot: -1, fnNode: sc.Lit}
 	w.node(sc.Lit.Body, fr)
@@ -714,6 +726,7 @@ func (w *walker) bindAndWalk(fn *AV, args []*AV, at ast.Node, fr frame) {
 	}
 	w.memo[key] = true
 	w.sc.Frames++
+	w.sc.FnPlaces[node] = append(w.sc.FnPlaces[node], FnPlace{Ctx: fr.ctx, Slot: fr.slot, Inlined: fr.inlined, BasePos: fr.basePos, InLoop: fr.loop > 0})
 	fr.env = env
 	fr.depth++
 	fr.fnNode = node
